@@ -1,48 +1,86 @@
 CHECK = dict(
     level='exploration',
-    parts=[dict(name='c12', src=['harness/c12_pack.c'], workers=16,
-                deadline=dict(quick=240, thorough=1500))],
-    rule='phase 1: for every buffer size 0..9, placed flush against an inaccessible page (right-aligned, then left-aligned), '
-         'every sequence of calls up to the stated length over the alphabet {each rf_pack_X / rf_unpack_X that pack.c '
-         'implements, with boundary arguments; rf_pack_init on the same buffer ("rewind")} is executed on the real pack.c '
-         '(depth-first, iterative deepening) and every call is compared with a byte-vector + unbounded-cursor model: buffer '
-         'image, canary bytes beside the buffer, returned value, destination array, rf_pack_consumed, rf_pack_remaining; a '
-         'fault during a call is a violation. phase 2: value sweeps (all 8/16-bit values, all byte-lane patterns of 32-bit '
-         'values) through every implemented scalar packer/unpacker at exact fit, one byte short and at offset 1, with '
-         'pack->rewind->unpack round trips. evaluations = calls checked (= non-empty call sequences in phase 1). A case is '
-         'distinct when its observation tuple (phase, operation, argument / bytes read, NULL flag, run length, buffer size, '
-         'alignment, cursor before the call, position relative to the end: fits / exact fit / first overflow / after '
-         'overflow) differs; the tuples are packed injectively into 64 bits and counted with a hash set',
+    parts=[dict(name='c12', src=['harness/c12_pack.c'], lib=['pack.c'], workers=16,
+                deadline=dict(quick=240, thorough=1500)),
+           dict(name='c12asan', src=['harness/c12_pack.c'], lib=['pack.c'], workers=16,
+                cflags=['-fsanitize=address', '-fsanitize-recover=address', '-fno-omit-frame-pointer', '-O1', '-DC12_ASAN'],
+                deadline=dict(quick=240, thorough=900))],
+    rule='pack.c is linked as an object of its own (its statics, if it ever has any, are reset before every case and saved with '
+         'every depth-first frame); the harness includes only <librfn/pack.h> and calls each operation by name (a function-like '
+         'macro or static inline in pack.h is simply called). One engine executes every call on the real code and on a model '
+         '(expected memory image + unbounded cursor + size given to the last rf_pack_init) and compares after EVERY call: the '
+         'buffer image and the bytes beside it, the returned value (0 on overflow), the destination array (copy / zero-filled on '
+         'overflow / bytes outside untouched), rf_pack_consumed, rf_pack_remaining; a fault (inaccessible page, assert, endless '
+         'loop) during a call is a violation. The buffer lies flush against an inaccessible page (placement R: its end, L: its '
+         'start). Families, each a full product: '
+         '(seq) every sequence of calls up to the stated length over the alphabet {each implemented rf_pack_X / rf_unpack_X with '
+         'boundary arguments; rf_pack_init on the same buffer ("rewind")}, depth-first with iterative deepening; '
+         '(sweep) all 8/16-bit values and all byte-lane patterns of 32-bit values through every implemented scalar '
+         'packer/unpacker at exact fit, one byte short and at offset 1, with pack->rewind->unpack round trips; '
+         '(runs) every sequence over {pack_bytes, unpack_bytes} x {real array, NULL} x EVERY run length 0..17, and rewind; the '
+         'source array has pairwise different bytes and a 0x00; '
+         '(src) source arrays with every byte value 0x00..0xff at every position of every run length 1..17 on two backgrounds, '
+         'packed at offset 0/1 with 0/1 bytes of slack, rewound and read back (compared with the model and directly with the source); '
+         '(reinit) rf_pack_init on the SAME rf_pack_t and the SAME base with every pair (old size, new size) of 0..9 - smaller, '
+         'equal, larger - after every prefix and before every suffix of calls of the seq alphabet; the rf_pack_t holds zeros or '
+         '0xa5 bytes before its first rf_pack_init; the bytes between the new and the old end are watched like any byte outside; '
+         '(mid) buffer sizes x first call x second call x probe call, sizes and run lengths from {0,1,2,3, 2^7, 2^8, 2^15, 2^16 each '
+         '-1/+0/+1}, with real source/destination arrays of up to 65537 bytes that end at an inaccessible page; '
+         '(wide) buffer sizes and first advance from {0, 2^e-1, 2^e, 2^e+1 for e=1..30, 2^31-2, 2^31-1} inside a 2 GiB mapping '
+         'between inaccessible pages, second advance (NULL destination or NULL source) around 2^8 / 2^16 and landing 3,2,1 short '
+         'of / exactly at / one past the end, then a probe call; memory is watched at both edges of the buffer and around the '
+         'cursor. Second part (c12asan): seq, runs, reinit and mid again on an AddressSanitizer build of pack.c, the buffer an '
+         'exactly-sized accessible region inside a poisoned arena (re-poisoned at every rf_pack_init to the current size), '
+         'destination arrays exactly sized; every sanitizer report (suppress_equal_pcs=0) naming a byte of the buffer arena is a '
+         'violation - reads included. evaluations = calls executed and compared that end a new history (depth-first: the leaves). '
+         'A case is distinct when its observation tuple (family, build, operation, argument / bytes read, NULL flag, run length, '
+         'buffer size, region size, placement, initial rf_pack_t, cursor before the call, position relative to the end: fits / '
+         'exact fit / first overflow / after overflow) differs; counted with a hash set; the work units of different workers '
+         'cannot produce the same tuple',
     bounds=dict(
-        quick='buffer sizes 0..9 x 2 alignments; all sequences of length <= 4 over 64 actions (pack_bytes/unpack_bytes with '
-              'runs 0,1,3 and NULL or real array; 16-bit packers with 0,1,0x7f,0x80,0xff,0x1234,0x8000,0xffff; 32-bit '
-              'packers additionally 0x12345678,0x80000000,0xffffffff; the scalar unpackers; rewind); sweeps: all 65536 '
-              'values per 16-bit operation, all 256 per 8-bit unpacker, 3 backgrounds x 4 lanes x 256 patterns per 32-bit '
-              'operation, each in 5 layouts x 2 alignments',
-        thorough='as quick with sequences of length <= 5, and the 32-bit sweeps additionally cover all 65536 patterns of '
-                 'every pair of byte lanes on 2 backgrounds'),
+        quick='seq: sizes 0..9 x 2 placements, all sequences of length <= 4 over 64 actions (pack_bytes/unpack_bytes with runs 0,1,3 '
+              'and NULL or real array; 16-bit packers with 0,1,0x7f,0x80,0xff,0x1234,0x8000,0xffff; 32-bit packers additionally '
+              '0x12345678,0x80000000,0xffffffff; the scalar unpackers; rewind). sweep: all 65536 values per 16-bit operation, all '
+              '256 per 8-bit unpacker, 3 backgrounds x 4 lanes x 256 patterns per 32-bit operation, each in 5 layouts x 2 '
+              'placements. runs: sizes 0..36 x 2 placements, all sequences of length <= 3 over 73 actions. src: 17 run lengths x '
+              'every position x 256 values x 2 backgrounds x 2 offsets x 2 slacks x 2 placements. reinit: 100 size pairs x 2 '
+              'placements x 2 initial rf_pack_t x (1 call, re-init, <= 2 calls). mid: 16 sizes x 2 placements x 75 x 75 x 9 calls. '
+              'wide: 92 sizes x 2 placements x 92 first advances x <= 15 second advances x 2 kinds x 9 probes, total requested '
+              'bytes < 2^31. AddressSanitizer part: seq (length <= 4), runs (<= 3), reinit, mid on 1 placement',
+        thorough='as quick with: seq length <= 5; the 32-bit sweeps additionally cover all 65536 patterns of every pair of byte lanes '
+                 'on 2 backgrounds; runs length <= 4; reinit additionally with 2 calls before the re-initialisation; wide second '
+                 'advance additionally over the whole menu of 92 values'),
     assumptions=[
-        'scope: total requested bytes stay far below 2^31 (at most 20 here)',
-        'only operations that pack.h declares AND pack.c defines are exercised (detected at link time through weak '
-        'references); the evidence notes list the declared-but-missing ones',
-        'reads outside the buffer are observable only when they fault on the guard page (one side per alignment pass) or '
-        'change a returned value; writes outside are seen on both sides (guard page / 16 canary bytes)',
-        'arguments of the sequences come from a boundary set; arbitrary 32-bit values are covered per byte lane (pairs of '
+        'scope: total requested bytes of a history stay below 2^31 (enforced by the generator of the wide family, counted as '
+        'scope_guard_skips); largest buffer 2^31-1 bytes',
+        'only operations that pack.h declares AND pack.c defines (or pack.h defines as macro / static inline) are exercised; the '
+        'evidence notes list the declared-but-missing ones',
+        'plain build: reads outside the buffer are observable only when they fault on the inaccessible page (one side per '
+        'placement) or change a returned value; the AddressSanitizer part observes every read outside the buffer for buffers of '
+        '0..65537 bytes whose start is 8-byte aligned (shadow granularity), not for the 2 GiB family',
+        'buffers above 65601 bytes are not modelled byte by byte: 288/320 bytes at each edge and 32 bytes on each side of the item '
+        'at the cursor are watched; zero runs longer than 64 bytes that fit such a buffer are left out (wide_touch_guard_skips)',
+        'an unpack call must leave the buffer unchanged (else "unpacking what was packed returns the original values" fails for the next '
+        'reader); reads beyond the end of a SOURCE array are not judged unless they fault',
+        'arguments of the seq sequences come from a boundary set; arbitrary 32-bit values are covered per byte lane (pairs of '
         'lanes in the thorough tier), not exhaustively',
-        'trusted: the byte-vector model and the harness; x86-64 little-endian host only (the byte-wise shifts in pack.c '
-        'are host independent by construction, which is not re-checked on a big-endian host)',
+        'trusted: the model and the harness; x86-64 little-endian host only (the byte-wise shifts in pack.c are host '
+        'independent by construction, which is not re-checked on a big-endian host)',
     ],
 )
 CHECK.update(
-    technique='bounded-exhaustive enumeration of call histories of the real pack.c on guard-page-flush buffers against a '
-              'byte-vector/cursor model, plus exhaustive value sweeps',
-    level_text='Every sequence of up to 4 (thorough: 5) calls over all implemented pack/unpack operations with boundary '
-               'arguments, on every buffer size 0..9 in both guard-page alignments, each call compared with the model '
-               '(buffer image, canaries, return value, destination array, consumed, remaining); every 16-bit value and '
-               'every byte-lane pattern of 32-bit values through each scalar operation at and around exact fit.',
-    level_note='Bounded: sequence length 4/5, buffer sizes up to 9, boundary argument set; 32-bit values are not '
-               'enumerated exhaustively. ASan is not used (the buffers are mmap-ed guard-page areas, which observe '
-               'excursions exactly). Trusted: the model in harness/c12_pack.c.',
+    technique='bounded-exhaustive enumeration of call histories of the real pack.c on guard-page-flush buffers (and exactly-sized '
+              'AddressSanitizer regions) against a byte-vector/cursor model, plus exhaustive value sweeps',
+    level_text='Every sequence of up to 4 (thorough: 5) calls over all implemented pack/unpack operations with boundary arguments on '
+               'every buffer size 0..9; every sequence of up to 3 (4) byte-run calls with every run length 0..17 on sizes 0..36; every '
+               'byte value at every source position; re-initialisation with every other size on the same base; sizes, runs and cursors '
+               'on both sides of 2^7..2^16 with real arrays and of every power of two up to 2^31-1 in a 2 GiB guard-paged mapping; '
+               'every 16-bit value and byte-lane pattern through each scalar operation - each call compared with the model (memory, '
+               'canaries, return value, destination array, consumed, remaining), repeated on -Os / -O0 / -DNDEBUG / clang builds and '
+               '(memory clauses) under AddressSanitizer.',
+    level_note='Bounded: sequence lengths, buffer sizes and argument menus as stated; 32-bit values are not enumerated exhaustively; '
+               'buffers above 64 KiB are watched at the edges and at the cursor only. AddressSanitizer is used for the "no byte outside is '
+               'read" clause on buffers up to 65537 bytes. Trusted: the model in harness/c12_pack.c.',
     design_ref='DESIGN.md section 4, C12',
 )
 
